@@ -91,6 +91,8 @@ def plan(tier, seed):
                        'limit': 38 if q else None})
     for i in range(4 if q else 16):
         shards.append({'kind': 'soup', 'n': 100 if q else 500, 'part': i})
+    for i in range(4 if q else 16):
+        shards.append({'kind': 'interact', 'n': 60 if q else 800, 'part': i})
     shards.append({'kind': 'default', 'n': 150 if q else 3000})
     shards.append({'kind': 'cli', 'n': 12 if q else 120})
     return shards
@@ -430,6 +432,94 @@ def _soup(spec, rng, res):
         if i < 1:
             res.sample({'soup_file_hex': data[:80].hex(), 'commands': cmds})
     res.count('soup_files', spec['n'])
+
+
+# ---- typed input through interact(): the console editor, INPUT, function keys ------------------------------
+
+_SPECIAL = [0x47, 0x48, 0x49, 0x4b, 0x4d, 0x4f, 0x50, 0x51, 0x52, 0x53] + list(range(0x3b, 0x45)) + [0x57, 0x58]
+
+
+def _typed_session(rng, templates):
+    """A list of key events: typed lines mixed with editing keys, control characters and function keys."""
+    sc = harness.scancode
+    events = []
+
+    def typ(text):
+        for ch in text:
+            events.append(harness.key_event(ch, None, []))
+
+    for _ in range(rng.randint(2, 6)):
+        r = rng.random()
+        if r < 0.45:
+            line = stmts.fill(rng.choice(templates), rng).decode('latin-1')
+            if rng.random() < 0.4:
+                line = '%d %s' % (rng.choice([10, 20, 30, 100, 65529]), line)
+            typ(line)
+        elif r < 0.6:
+            typ(rng.choice(['INPUT A$,B', 'LINE INPUT L$', 'INPUT "p";X', 'A$=INKEY$:PRINT A$', 'A$=INPUT$(2):PRINT A$',
+                            'AUTO', 'EDIT 10', 'LIST', 'KEY ON', 'FILES', 'NEW', 'RUN', 'CONT', 'AUTO 10,5']))
+        elif r < 0.7:
+            typ(''.join(chr(rng.choice([1, 2, 3, 5, 6, 7, 8, 9, 10, 11, 12, 14, 18, 20, 23, 27, 28, 29, 30, 31, 127, 0, 255]))
+                        for _ in range(rng.randint(1, 6))))
+        elif r < 0.8:
+            typ('X' * rng.choice([80, 200, 254, 255, 256, 300]))
+        # editing keys in the line
+        for _ in range(rng.randint(0, 8)):
+            scan = rng.choice(_SPECIAL)
+            mods = rng.choice([[], [], [sc.CTRL], [sc.ALT], [sc.LSHIFT]])
+            events.append(harness.key_event(u'\0' + chr(scan), scan, mods))
+            # release the key (matters for F12, the emulator's modifier key)
+            events.append(harness.signals.Event(harness.signals.KEYB_UP, (scan,)))
+            if rng.random() < 0.3:
+                typ(rng.choice(['x', '1', '"', ':', ' ', '?']))
+        if rng.random() < 0.15:
+            events.append(harness.key_event(u'', sc.BREAK, [sc.CTRL]))
+        events.append(harness.key_event(u'\r', sc.RETURN, []))
+    return events
+
+
+def _interact(spec, rng, res):
+    templates = [t for t in stmts.STATEMENTS if not t.startswith((b'SYSTEM', b'SHELL', b'TERM'))] + \
+                [b'PRINT ' + f for f in stmts.FUNCTIONS]
+    for i in range(spec['n']):
+        name, kwargs, setup = rng.choice(CONTEXTS)
+        events = _typed_session(rng, templates)
+        box = _new_box(kwargs, budget=3000)
+        try:
+            for l in PROG + setup:
+                _exec(box, res, l, {'ctx': name, 'setup': l})
+            box.stepper.reset(3000)
+            box.stepper.exit_on_wait = True
+            box.stepper.wait_budget = 30
+            pending = list(events)
+            kbuf = box.impl.keyboard.buf
+
+            def feed(queues, pending=pending, kbuf=kbuf):
+                # type the next few keys whenever the 15-key buffer has room (a fast typist)
+                if pending and kbuf.length < 4:
+                    for _ in range(min(8, len(pending))):
+                        queues.inputs.put(pending.pop(0))
+                    return True
+                return bool(pending)
+
+            box.stepper.on_wait_cb = feed
+            typed = ''.join(e.params[0] for e in events if e.event_type == harness.signals.KEYB_DOWN)
+            case = {'ctx': name, 'typed': typed[:1500]}
+            try:
+                with harness.time_limit(15):
+                    # Break raised by the step budget is handled inside interact(); the loop ends with Exit
+                    harness.guarded(box.s.interact)
+                res.count('interactive_sessions')
+            except harness.Internal as e:
+                res.violation(e.key, '%s in interact() after typing %r\n%s' % (e, typed[:300], e.tb[-1500:]), case)
+                res.count('internal_errors_seen')
+            except harness.CaseTimeout:
+                res.count('case_timeouts')
+            res.case(('interact', name, typed))
+            if i < 1:
+                res.sample({'kind': 'interact', 'ctx': name, 'typed': typed[:300]})
+        finally:
+            box.close()
 
 
 # ---- default configuration (Session() with no arguments) in a subprocess ----------------------------------
